@@ -429,7 +429,15 @@ def run(ctx):
         ctx.case((inputs, output, tuple(sorted(size_dict.items())), path),
                  nontrivial=len(inputs) >= 3,
                  sample={"inputs": inputs, "output": output, "size_dict": size_dict, "path": path} if ti < 3 else None)
-        one_tree(inputs, output, size_dict, path, "t%d" % ti)
+        try:
+            one_tree(inputs, output, size_dict, path, "t%d" % ti)
+        except Exception as e:
+            # the implementation (or an observation of it) raised on a valid network / tree: a failure with
+            # this input, not a harness crash that hides the remaining cases
+            import traceback
+            ctx.fail("estimating a valid tree raised %r" % (e,),
+                     {"inputs": inputs, "output": output, "size_dict": size_dict, "path": path,
+                      "traceback": traceback.format_exc()[-1500:]})
 
     # pinned probe of the dangling-index discrepancy (runs every time)
     one_tree([("a", "b"), ("b", "c")], ("c",), {"a": 2, "b": 3, "c": 5}, ((0, 1),), "probe", probe=True)
